@@ -39,9 +39,108 @@ def cmdOfEvent : Except Stop SurfModel.Payload.Event → SurfModel.TextLayout.Cm
 /-- the payload decoder of `tty_writer()` -/
 def ttyInterp {σ : Type} (A : TAuto σ) (it : Item σ) : SurfModel.TextLayout.Cmd := cmdOfEvent (commandOfItem A it)
 
+/-! ## sequences of calls on ONE `TerminalWriter`
+
+The writer's own `Utf8Decoder` (field `decoder`, used by `impl io::Write for TerminalWriter`) lives as long as
+the writer: a write that ended with a decoding error, or in the middle of a character, is followed by further
+writes on the same decoder. `utf8_writer()` / `tty_writer()` / `put_fmt` create a fresh decoder per call. -/
+
+inductive SOp where
+  /-- `put_cell(cell)` -/
+  | put (c : Cell)
+  /-- `put_char(c)` -/
+  | chr (c : Nat)
+  /-- `put_glyph(glyph)` = `put_cell(Cell::new_glyph(self.face(), glyph))` -/
+  | glyph (h w : Nat) (fb : List Nat)
+  /-- `put_image(image)` = `put_cell(Cell::new_image(image))` -/
+  | image (ph pw : Nat)
+  /-- `put_text(&text)`: every cell of the text through `put_cell`, results ignored -/
+  | text (cells : List Cell)
+  /-- `put_fmt(&str, face)`: the face is swapped, the string goes through a fresh `utf8_writer()`, the face is put back -/
+  | fmt (face : Option Face) (bytes : List UInt8)
+  /-- `Write::write(&mut writer, buf)`: the writer's own decoder -/
+  | write (bytes : List UInt8)
+  /-- `writer.by_ref().utf8_writer().write(buf)`: a fresh decoder -/
+  | utf8 (bytes : List UInt8)
+  /-- `writer.by_ref().tty_writer().write(buf)`: a fresh decoder -/
+  | tty (bytes : List UInt8)
+  | setFace (f : Face)
+  | setWraps (b : Bool)
+  | setCursor (r c : Nat)
+
+/-- one call: the writer, its own decoder, what the call returned (`t`/`f`, `ok`/`err`, `-`) -/
+def runOp (A : TAuto Nat) (w : Writer) (d : USt Nat) : SOp → Except Fault (Writer × USt Nat × String)
+  | .put c => match putCell w c with
+    | none => .error .panic
+    | some (w', b) => .ok (w', d, if b then "t" else "f")
+  | .chr c => match putChar w c with
+    | none => .error .panic
+    | some (w', b) => .ok (w', d, if b then "t" else "f")
+  | .glyph h gw fb => match putCell w ⟨w.face, .glyph h gw fb⟩ with
+    | none => .error .panic
+    | some (w', b) => .ok (w', d, if b then "t" else "f")
+  | .image ph pw => match putCell w ⟨Face.dflt, .image ph pw⟩ with
+    | none => .error .panic
+    | some (w', b) => .ok (w', d, if b then "t" else "f")
+  | .text cells => match putCells w cells with
+    | none => .error .panic
+    | some w' => .ok (w', d, "-")
+  | .fmt face bytes =>
+    let old := w.face
+    let w1 := match face with | some f => { w with face := f } | none => w
+    match SurfModel.TextLayout.write utf8Auto putChar w1 (uinit utf8Auto) bytes with
+    | .error e => .error e
+    | .ok (w2, _, _) => .ok (match face with | some _ => { w2 with face := old } | none => w2, d, "-")
+  | .write bytes => match SurfModel.TextLayout.write utf8Auto putChar w d bytes with
+    | .error e => .error e
+    | .ok (w', d', ok) => .ok (w', d', if ok then "ok" else "err")
+  | .utf8 bytes => match SurfModel.TextLayout.write utf8Auto putChar w (uinit utf8Auto) bytes with
+    | .error e => .error e
+    | .ok (w', _, ok) => .ok (w', d, if ok then "ok" else "err")
+  | .tty bytes => match ttyWrite A.toAuto (ttyInterp A) w (init A.toAuto) bytes with
+    | .error e => .error e
+    | .ok (w', _) => .ok (w', d, "ok")
+  | .setFace f => .ok ({ w with face := f }, d, "-")
+  | .setWraps b => .ok ({ w with wraps := b }, d, "-")
+  | .setCursor r c => .ok (w.setCursor r c, d, "-")
+
+def runScript (A : TAuto Nat) : Writer → USt Nat → List SOp → List String → Except Fault (Writer × List String)
+  | w, _, [], acc => .ok (w, acc.reverse)
+  | w, d, op :: ops, acc =>
+    match runOp A w d op with
+    | .error e => .error e
+    | .ok (w', d', r) => runScript A w' d' ops (s!"{r}{w'.st.row}.{w'.st.col}" :: acc)
+
+/-- ops are separated by `|`: `P<cell>`, `C<code>`, `G<h>x<w>[:code…]`, `I<ph>x<pw>`, `X<cell>;<cell>…` (`X-` empty),
+`M<face|->;<hex>`, `W<hex>`, `U<hex>`, `T<hex>`, `F<face>`, `R<0|1>`, `S<r>,<c>` -/
+def parseSOp (s : String) : Option SOp :=
+  match s.toList with
+  | 'P' :: r => (parseCell (String.ofList r)).map SOp.put
+  | 'C' :: r => (String.ofList r).toNat?.map SOp.chr
+  | 'G' :: r => match parseKind (String.ofList ('g' :: r)) with
+    | some (.glyph h w fb) => some (.glyph h w fb)
+    | _ => none
+  | 'I' :: r => (parseDims (String.ofList r)).map fun d => SOp.image d.1 d.2
+  | 'X' :: r =>
+    let body := String.ofList r
+    if body == "-" then some (.text []) else ((body.splitOn ";").mapM parseCell).map SOp.text
+  | 'M' :: r => match (String.ofList r).splitOn ";" with
+    | [f, hx] => do
+      let bytes ← SurfModel.Proto.unhex hx
+      if f == "-" then pure (.fmt none bytes) else pure (.fmt (some (← parseFace f)) bytes)
+    | _ => none
+  | 'W' :: r => (SurfModel.Proto.unhex (String.ofList r)).map SOp.write
+  | 'U' :: r => (SurfModel.Proto.unhex (String.ofList r)).map SOp.utf8
+  | 'T' :: r => (SurfModel.Proto.unhex (String.ofList r)).map SOp.tty
+  | 'F' :: r => (parseFace (String.ofList r)).map SOp.setFace
+  | 'R' :: r => some (.setWraps (String.ofList r == "1"))
+  | 'S' :: r => (parsePos (String.ofList r)).map fun p => SOp.setCursor p.1 p.2
+  | _ => none
+
 /-- requests (after `c09`) that need the installed table:
 * `table command <n> <rows>` — install the dumped command automaton; answers `ok <n>`
-* `ttys <H> <W> <chain> <ctx> <wraps> <wface> <widths> <chunks>` — `tty_writer()` fed the chunks -/
+* `ttys <H> <W> <chain> <ctx> <wraps> <wface> <widths> <chunks>` — `tty_writer()` fed the chunks
+* `script <H> <W> <chain> <ctx> <wraps> <wface> <widths> <ops>` — a sequence of calls on one writer -/
 def handle (rows : Option (Array Wire.Row)) : List String → Option (Array Wire.Row) × String
   | ["table", "command", _, table] =>
     match (table.splitOn ";").mapM Wire.parseRow with
@@ -54,6 +153,13 @@ def handle (rows : Option (Array Wire.Row)) : List String → Option (Array Wire
       match ttySession A.toAuto (ttyInterp A) (mkWriter ctx h w ops (wraps == "1") face (0, 0)) (init A.toAuto) chunks with
       | .error e => (rows, showFault e)
       | .ok (wr, _) => (rows, s!"{",".intercalate (chunks.map fun _ => "ok")} {showEnd wr}")
+    | _, _, _, _, _, _, _ => (rows, "bad-op")
+  | ["script", h, w, chain, ctx, wraps, wface, widths, ops] =>
+    match rows, h.toNat?, w.toNat?, parseChain chain, parseCtx ctx widths, parseFace wface, (ops.splitOn "|").mapM parseSOp with
+    | some rs, some h, some w, some chn, some ctx, some face, some sops =>
+      match runScript (rowsAuto rs) (mkWriter ctx h w chn (wraps == "1") face (0, 0)) (uinit utf8Auto) sops [] with
+      | .error e => (rows, showFault e)
+      | .ok (wr, tr) => (rows, s!"{joinS tr} {showEnd wr}")
     | _, _, _, _, _, _, _ => (rows, "bad-op")
   | _ => (rows, "bad-op")
 
